@@ -149,12 +149,12 @@ package basicauth
 //@ ghost parsedRules int
 //@ func basicAuthParse
 //@   requires c != nil
-//@   modifies ghost:parsedNow
+//@   modifies ghost:parsedNow, Dispenser.cursor, Dispenser.nesting, E:string, E:github.com/tmpim/casket/caskethttp/basicauth.Rule
 //@   ensures parsedNow == old(parsedNow) + 1
 //@ extern (*github.com/tmpim/casket/caskethttp/httpserver.SiteConfig).AddMiddleware
 //@ func setup
 //@   requires c != nil && parsedNow == 0
-//@   modifies ghost:parsedNow
+//@   modifies ghost:parsedNow, Dispenser.cursor, Dispenser.nesting, E:string, E:github.com/tmpim/casket/caskethttp/basicauth.Rule
 //@   at call (*github.com/tmpim/casket/caskethttp/httpserver.SiteConfig).AddMiddleware before [the_handler_carries_the_rules_parsed_in_this_very_run] parsedNow == 1 && basic.Rules == rules
 //@   ensures [rules_parsed_in_every_run] parsedNow == 1
 
